@@ -45,24 +45,24 @@ GEN_RULE = ("scripts are generated from one splitmix64 state (VERIF_SEED) with t
 prop("C01", "proof", "Lean theorems: the greedy loop invariant (independent of the search structure) gives round-trip for the six greedy parsers; the model is tied to the Go code by executing both on the same scripts; Go oracle re-expands every block",
      "Lean 4 loop-invariant proof + model/impl differential correspondence",
      [S("p-general", 300, 6000, ["p.parse.matches", "p.shrink.effective", "p.reset.data", "p.parse.ntl.truncated"]),
-      S("u-units", 100, 2000, ["u.ulcp", "u.ulcs"])],
+      S("u-units", 100, 2000, ["u.ulcp", "u.ulcs"]), S("p-exhaustive", 5355, 42987, [])],
      "trusted: Lean kernel, theorem statements, harness+extractor; byte comparison tricks modelled at byte level (tied by u-units)", GEN_RULE, "§8 C01")
 prop("C02", "proof", "Lean theorem on emitted sequences (offset within window and position, minimum length, Aux 0, LitLen sum) from the probe contract; oracle checks every sequence of every generated block",
      "Lean 4 proof of the probe contract + differential correspondence",
-     [S("p-general", 300, 6000, ["p.parse.matches", "p.match.offset=window"])],
+     [S("p-general", 300, 6000, ["p.parse.matches", "p.match.offset=window"]), S("p-exhaustive", 5355, 42987, [])],
      "as C01", GEN_RULE, "§8 C02")
 prop("C03", "proof", "Lean theorems on Parse accounting (n, ErrEmptyBuffer, NoTrailingLiterals) from finishBlock; oracle compares n with Block.Len and the remaining input",
      "Lean 4 proof + differential correspondence",
-     [S("p-general", 300, 6000, ["p.parse.ntl.truncated", "p.parse.literalonly", "p.parse.empty"])],
+     [S("p-general", 300, 6000, ["p.parse.ntl.truncated", "p.parse.literalonly", "p.parse.empty"]), S("p-exhaustive", 5355, 42987, [])],
      "as C01", GEN_RULE, "§8 C03")
 prop("C04", "proof", "refinement of the DecoderBuffer model to an append-only byte log (all growth functions) incl. the doubling copy; model tied by differential scripts that compare len, R, Off, BufferSize and cap after every operation",
      "Lean 4 refinement proof + differential correspondence",
      [S("d-buf", 300, 6000, ["d.wblk.ok", "d.wblk.shrunk", "d.match.overlap", "d.match.doubling2", "d.read"]),
-      S("dd", 200, 4000, ["d.wblk.ok", "dd.flush.ok"], hang="10s")],
+      S("dd", 200, 4000, ["d.wblk.ok", "dd.flush.ok"], hang="10s"), S("d-exhaustive", 11311, 135727, [])],
      "trusted: as C01; Go runtime slice growth is a parameter of the theorems and transcribed (self-tested against append) for execution", GEN_RULE, "§8 C04")
 prop("C05", "proof", "rejection conditions and atomicity of WriteMatch/WriteBlock as Lean theorems over the full uint32 range; malformed-stream generator; caller's block compared before/after",
      "Lean 4 proof + differential correspondence with malformed streams",
-     [S("d-malformed", 300, 6000, ["d.malformed", "d.wblk.ok"]), S("d-buf", 100, 1000, [])],
+     [S("d-malformed", 300, 6000, ["d.malformed", "d.wblk.ok"]), S("d-buf", 100, 1000, []), S("d-exhaustive", 11311, 135727, [])],
      "as C04", GEN_RULE, "§8 C05")
 prop("C06", "proof", "the Decoder retry loops are total Lean functions whose spin branch (hang marker) is proved unreachable; harness watchdog reports hangs of the real code",
      "Lean 4 termination proof (unreachable hang marker) + watchdog differential runs",
